@@ -645,6 +645,7 @@ def run_target(api, name, method):
         args=[('data', 'data')],
         extra_params=[('onCancel', 'List κ'), ('onError', 'List κ'), ('onSuccess', 'List κ')],
         ignore=('self.log_*', '_logger.*'), debug_calls=(),
+        inert_calls=('_args_as_string',),      # the formatter of the log messages (audit of the base scheme)
         opaque={'tuple((data[k] for k in self._f_args))': 'args', '{k: data[k] for k in self._f_kwargs}': 'kwargs'},
         atoms={'self._guard_time > 0.0': ('P.guardPositive', 'bool'), 'asyncio.sleep(self._guard_time)': ('()', 'guardsleep'),
                'self.output + 1': ('(1 : Int)', 'delta'), 'self.output - 1': ('(-1 : Int)', 'delta')},
